@@ -503,7 +503,7 @@ def run_case(case: Dict[str, Any], options: Optional[Dict[str, Any]] = None, rai
     tr = Trace(options)
     CURRENT = tr
     res.trace = tr
-    lg = None if case.get("no_logger") else RecLogger()  # a run without any logger is a legitimate way to use the runner
+    lg = None if case.get("no_logger") else (options.get("logger_instance") or RecLogger())  # a run without any logger is a legitimate way to use the runner
     try:
         try:
             r = SequentialRunner(settings=cfg, prng=random.Random(case["seed"]), logger=lg)
